@@ -220,6 +220,27 @@ CHECKS["C12"] = dict(
               "per-chain fault enumeration on the real handler with restart on the surviving database",
 )
 
+CHECKS["C04"] = dict(
+    category="model_checking",
+    text="Slashing.tla models ekm AddShare / RemoveShare / BumpSlashingProtection / SignBeaconObject (attestation, block) "
+         "with eth2-key-manager's NormalProtection and wallet as sequential read/write programs over four database items, "
+         "one action per public call with at most one fault plan (crash before/after a write, write error, read error, "
+         "read not-found, empty value), so a crash falls between any two writes; restart = new signer on the surviving "
+         "database. TLC exhausts clock <= 5 slots / 1 fault (quick) or 7 slots / 2 faults (thorough, 1.33M states) checking "
+         "NoDoubleVote, NoSurround, NoDoubleBlock, RefuseWhenUnknown and the covering invariant; Apalache discharges the "
+         "inductive step for unbounded integers on SlashInd.tla (thorough). State-graph cover, simulations and per-clause "
+         "attack traces of ten weakenings are replayed on the real key manager over real badger behind a fault-injecting "
+         "wrapper and a fake clock; the monitor applies the slashing conditions to released signatures only. Random real "
+         "executions are validated against SlashingTrace.tla; concurrent signing runs under -race.",
+    design_ref="DESIGN.md section 5 C04",
+    note="one share, SPE=2; targets/slots not beyond the clock; add/remove/reactivate assumed not to overlap signing of "
+         "the same share; concurrent part is a sampled exploration (the dependency's account lock deadlocks under "
+         "contention, counted, not a verdict); the empty-record fault was a genuine defect (fixed in 25c7aec2a) and stays "
+         "in the model as a named deviation.",
+    technique="TLA+ spec + TLC exhaustive check + Apalache inductive step; cover / attack traces replayed on the real "
+              "signer with crash and storage-fault injection; TLC trace validation of recorded executions",
+)
+
 _QBFT_NOTE = ("N=4 (f=1), one Byzantine operator with its real BLS key; exhaustive only per adversary class and round bound "
               "named in the evidence (macro grain: quorum-at-once delivery of prepares/commits, normalised like "
               "instance.Compact), never for all Byzantine behaviours; the fine grain (one ProcessMsg per step) is "
